@@ -20,6 +20,9 @@ const maxPayload = 6*1024*1024 + 100
 type c01Inv struct {
 	Payload kit.Blob `json:"payload"`
 	Ctx     *string  `json:"ctx,omitempty"`
+	// Slow: this caller is on a slow link - it has the response headers but reads the (large) body only after the next
+	// invocation has been answered
+	Slow bool `json:"slow,omitempty"`
 	Trace   string   `json:"trace,omitempty"`
 	Kind    string   `json:"kind"` // ok | error | repoll | crash | stall | oversize
 	// Knock: while this invocation is with the runtime a second caller tries the invoke endpoint (and is refused); the
@@ -56,9 +59,10 @@ func (c *c01Case) scenario() *Scenario {
 		cur = append(cur, Step{Op: "sleep", Ms: c.InitDelayMs})
 	}
 	flush := func() { scripts = append(scripts, Script{Steps: cur}); cur = []Step{} }
+	held := ""
 	for i, inv := range c.Invs {
 		tag := fmt.Sprintf("i%d", i)
-		knock := inv.Knock && (inv.Kind == "ok" || inv.Kind == "error" || inv.Kind == "repoll")
+		knock := inv.Knock && (inv.Kind == "ok" || inv.Kind == "error" || inv.Kind == "repoll") && held == "" && !inv.Slow
 		if knock {
 			cur = append(cur, Step{Op: "rt.next", Tag: tag, Signal: []string{tag + ".got"}}, Step{Op: "await", Name: tag + ".go", Ms: 3000})
 		} else {
@@ -91,7 +95,20 @@ func (c *c01Case) scenario() *Scenario {
 				Step{Op: "signal", Name: tag + ".go"}, Step{Op: "join", Tag: tag})
 			continue
 		}
-		sc.Driver = append(sc.Driver, Step{Op: "invoke", Tag: tag, Payload: &c.Invs[i].Payload, ClientCtx: inv.Ctx, Trace: inv.Trace})
+		inv2 := Step{Op: "invoke", Tag: tag, Payload: &c.Invs[i].Payload, ClientCtx: inv.Ctx, Trace: inv.Trace}
+		if held != "" {
+			// the previous caller is still receiving its response: it reads on once this invocation is over
+			sc.Driver = append(sc.Driver, inv2, Step{Op: "signal", Name: held + ".read"}, Step{Op: "join", Tag: held})
+			held = ""
+			continue
+		}
+		if inv.Slow && inv.Kind == "ok" && i < len(c.Invs)-1 {
+			inv2.Async, inv2.SigHeaders, inv2.ReadAfter = true, tag+".hdr", tag+".read"
+			sc.Driver = append(sc.Driver, inv2, Step{Op: "await", Name: tag + ".hdr", Ms: 10000})
+			held = tag
+			continue
+		}
+		sc.Driver = append(sc.Driver, inv2)
 	}
 	cur = append(cur, Step{Op: "rt.next", Tag: "final"})
 	flush()
@@ -131,6 +148,10 @@ func c01Check(c c01Case) kit.Outcome {
 	afterBad := false
 	for i, inv := range c.Invs {
 		out.Label("kind:" + inv.Kind)
+		if inv.Slow && inv.Kind == "ok" && i < len(c.Invs)-1 {
+			out.Label("slow-caller")
+			out.Nontrivial = true
+		}
 		if inv.Knock && (inv.Kind == "ok" || inv.Kind == "error" || inv.Kind == "repoll") {
 			out.Label("knock")
 			out.Nontrivial = true
@@ -187,6 +208,15 @@ func c01Check(c c01Case) kit.Outcome {
 		}
 		payload := trunc(inv.Payload.Bytes())
 		want := kit.Summarise(payload)
+		// the window of an invocation: from its issue to its return - for a caller on a slow link (who returns only after
+		// the next invocation is over) to the issue of that next invocation, which the driver makes once the slow caller
+		// has its response headers
+		winEnd := ret.Seq
+		if inv.Slow && inv.Kind == "ok" && i < len(c.Invs)-1 {
+			if nx := tr.invokeIssue(fmt.Sprintf("i%d", i+1)); nx != nil && nx.Seq < winEnd {
+				winEnd = nx.Seq
+			}
+		}
 		// events the runtime received inside this invocation's window
 		var id string
 		var got []*Event
@@ -198,7 +228,7 @@ func c01Check(c c01Case) kit.Outcome {
 			}
 			if e.Err != "" {
 				// the process was killed while the event was still being transferred to it: no complete delivery to judge
-				if e.Seq > iss.Seq && e.Seq < ret.Seq {
+				if e.Seq > iss.Seq && e.Seq < winEnd {
 					cut = true
 				}
 				continue
@@ -207,11 +237,11 @@ func c01Check(c c01Case) kit.Outcome {
 				out.Violate("C01/spurious-event", "runtime received an event (seq %d) while no invocation was pending", e.Seq)
 				return out
 			}
-			if e.Seq > iss.Seq && e.Seq < ret.Seq {
+			if e.Seq > iss.Seq && e.Seq < winEnd {
 				got = append(got, e)
 			}
 		}
-		prevEnd = ret.Seq
+		prevEnd = winEnd
 		if cut && (inv.Kind == "stall" || inv.Kind == "late") && len(got) == 0 {
 			// a large event was still on its way when the function timeout expired: only the caller's outcome can be judged
 			out.Label("delivery-cut-by-timeout")
@@ -455,6 +485,12 @@ func c01Gen(t *rapid.T) c01Case {
 		}
 	} else if rapid.IntRange(0, 3).Draw(t, "slowInit") == 0 {
 		c.InitDelayMs = rapid.IntRange(400, 900).Draw(t, "initDelayMs")
+	} else if n >= 2 && rapid.IntRange(0, 4).Draw(t, "slowCaller") == 0 {
+		// a caller on a slow link is still receiving a large response while the next caller's (large, different) one comes in
+		i := rapid.IntRange(0, n-2).Draw(t, "slowIdx")
+		sz := rapid.SampledFrom([]int{2 << 20, 3<<20 + 17, maxPayload - 64}).Draw(t, "slowLen")
+		c.Invs[i] = c01Inv{Kind: "ok", Slow: true, Payload: kit.Blob{Len: sz, Seed: 41, Kind: "random"}}
+		c.Invs[i+1] = c01Inv{Kind: "ok", Payload: kit.Blob{Len: sz - rapid.IntRange(0, 3).Draw(t, "nextDelta"), Seed: 42, Kind: "ascii"}}
 	}
 	return c
 }
@@ -476,6 +512,10 @@ func c01Fixed() []c01Case {
 			{Payload: kit.Blob{Len: 20, Seed: 2, Kind: "json"}, Kind: "ok"},
 			{Payload: kit.Blob{Len: 20, Seed: 3, Kind: "json"}, Kind: "crash"},
 			{Payload: kit.Blob{Len: 7, Seed: 4, Kind: "ascii"}, Kind: "ok"}}},
+		{TimeoutMs: 8000, TimeoutEnvS: 8, Invs: []c01Inv{
+			{Payload: kit.Blob{Len: 3 << 20, Seed: 1, Kind: "random"}, Kind: "ok", Slow: true},
+			{Payload: kit.Blob{Len: 3 << 20, Seed: 2, Kind: "ascii"}, Kind: "ok"},
+			{Payload: kit.Blob{Len: 9, Seed: 3, Kind: "ascii"}, Kind: "ok"}}},
 		{TimeoutMs: 300, TimeoutEnvS: 3, Invs: []c01Inv{
 			{Payload: kit.Blob{Len: 40, Seed: 1, Kind: "json"}, Kind: "ok"},
 			{Payload: kit.Blob{Len: 41, Seed: 2, Kind: "json"}, Kind: "late"},
